@@ -29,6 +29,10 @@ package mapping
 // Values that already have the field's Go kind: stored only if they fit (never wrapped or truncated).
 //@ func setMatchedPrimitiveValue
 //@   prop C05
+// its unchecked type assertions are proved from the precondition, which both callers establish from
+// convertType's postcondition (the value handed over is the one just converted for the same kind)
+//@   safety bounds divzero typeassert
+//@   requires (kind == 1 ==> typeis(v, bool)) && (kind >= 2 && kind <= 6 ==> typeis(v, int64)) && (kind >= 7 && kind <= 11 ==> typeis(v, uint64)) && (kind == 13 || kind == 14 ==> typeis(v, float64)) && (kind == 24 ==> typeis(v, string))
 //@   ensures [int-fits] calls(SetInt) == 1 ==> calls(OverflowInt) == 1 && !ret(OverflowInt) && arg(OverflowInt, 1) == arg(SetInt, 1) && arg(SetInt, 1) == unbox(v, int64)
 //@   ensures [int-overflow] calls(OverflowInt) == 1 && ret(OverflowInt) ==> result == errValueOverflow && calls(SetInt) == 0
 //@   ensures [uint-fits] calls(SetUint) == 1 ==> calls(OverflowUint) == 1 && !ret(OverflowUint) && arg(OverflowUint, 1) == arg(SetUint, 1) && arg(SetUint, 1) == unbox(v, uint64)
@@ -166,18 +170,20 @@ package mapping
 //@   ensures [string-verbatim] kind == 24 ==> result1 == nil && typeis(result0, string) && unbox(result0, string) == str
 //@   ensures [bool-exact-words] kind == 1 ==> (result1 == nil) == (ret(ToLower) == "1" || ret(ToLower) == "true" || ret(ToLower) == "0" || ret(ToLower) == "false") && (result1 == nil ==> unbox(result0, bool) == (ret(ToLower) == "1" || ret(ToLower) == "true"))
 //@   ensures [unsupported-kind-is-error] kind != 1 && !isInt && !isUint && !isFloat && kind != 24 ==> result1 == errUnsupportedType && result0 == nil
+// (no ghost queries in this one: it is what callers know at the call site)
+//@   ensures [dynamic-type-matches-the-kind] result1 == nil ==> (kind == 1 ==> typeis(result0, bool)) && (kind >= 2 && kind <= 6 ==> typeis(result0, int64)) && (kind >= 7 && kind <= 11 ==> typeis(result0, uint64)) && (kind == 13 || kind == 14 ==> typeis(result0, float64)) && (kind == 24 ==> typeis(result0, string))
 // validateAndSetValue / setValue: nothing is stored unless the conversion succeeded (and, for validateAndSetValue,
 // range= accepted the converted value); the store is the overflow-checked setMatchedPrimitiveValue.
 //@ func validateAndSetValue
 //@   prop C05
-//@   opaque convertType, validateValueRange, setMatchedPrimitiveValue
+//@   opaque validateValueRange
 //@   ensures [unsettable] !ret(CanSet) ==> result == errValueNotSettable && calls(setMatchedPrimitiveValue) == 0
 //@   ensures [conversion-error-not-stored] ret(CanSet) && ret(convertType, 1) != nil ==> result == ret(convertType, 1) && calls(setMatchedPrimitiveValue) == 0
 //@   ensures [out-of-range-not-stored] ret(CanSet) && ret(convertType, 1) == nil && ret(validateValueRange) != nil ==> result == ret(validateValueRange) && calls(setMatchedPrimitiveValue) == 0
 //@   ensures [checked-store-of-the-converted-value] ret(CanSet) && ret(convertType, 1) == nil && ret(validateValueRange) == nil ==> calls(setMatchedPrimitiveValue, kind, value, ret(convertType, 0)) == 1 && result == ret(setMatchedPrimitiveValue) && calls(convertType, kind, str) == 1 && calls(validateValueRange, ret(convertType, 0), opts) == 1
 //@ func setValue
 //@   prop C05
-//@   opaque convertType, setMatchedPrimitiveValue, ensureValue
+//@   opaque ensureValue
 //@   ensures [unsettable] !ret(CanSet) ==> result == errValueNotSettable && calls(setMatchedPrimitiveValue) == 0
 //@   ensures [conversion-error-not-stored] ret(CanSet) && ret(convertType, 1) != nil ==> result == ret(convertType, 1) && calls(setMatchedPrimitiveValue) == 0
 //@   ensures [checked-store-of-the-converted-value] ret(CanSet) && ret(convertType, 1) == nil ==> calls(setMatchedPrimitiveValue) == 1 && arg(setMatchedPrimitiveValue, 0) == kind && arg(setMatchedPrimitiveValue, 2) == ret(convertType, 0) && result == ret(setMatchedPrimitiveValue) && calls(convertType, kind, str) == 1
@@ -487,6 +493,10 @@ package mapping
 //@   ensures [recursive-view-of-parent] rv.parent != nil ==> typeis(result, recursiveValuer) && unbox(result, recursiveValuer).current == rv.parent && unbox(result, recursiveValuer).parent == ret(Parent)
 //@ func (recursiveValuer).Value
 //@   prop C05
+// never panics: the inner object the outer entries are merged into may be a nil map (a map document built by
+// hand can hold one; decoders never produce it)
+//@   safety bounds divzero typeassert nilmap
+//@   replay mapping_nilmap_inherit
 //@   opaque Parent
 //@   requires rv.current != nil
 //@   let own = ret(Value, 0, 1)
@@ -497,9 +507,9 @@ package mapping
 //@   ensures [own-non-object-wins] found && !typeis(own, map[string]any) ==> result1 && result0 == own && calls(Value) == 1
 //@   ensures [found-is-found] found ==> result1
 //@   ensures [object-without-outer-object-unchanged] found && typeis(own, map[string]any) && (ret(Parent) == nil || !ret(Value, 1, 2) || !typeis(ret(Value, 0, 2), map[string]any)) ==> result0 == own
-//@   let vm = unbox(own, map[string]any)
-//@   loop 1 invariant typeis(own, map[string]any) && found && forallk(k0, string, old(has(vm, k0)) ==> has(vm, k0) && vm[k0] == old(vm[k0]))
-//@   ensures [inner-entries-win] found && typeis(own, map[string]any) ==> typeis(result0, map[string]any) && unbox(result0, map[string]any) == vm && forallk(k0, string, old(has(vm, k0)) ==> has(vm, k0) && vm[k0] == old(vm[k0]))
+//@   let ownm = unbox(own, map[string]any)
+//@   loop 1 invariant typeis(own, map[string]any) && found && vm != nil && (ownm != nil ==> vm == ownm) && forallk(k0, string, ownm != nil && old(has(ownm, k0)) ==> has(vm, k0) && vm[k0] == old(ownm[k0]))
+//@   ensures [inner-entries-win] found && typeis(own, map[string]any) ==> typeis(result0, map[string]any) && (ownm != nil ==> unbox(result0, map[string]any) == ownm) && forallk(k0, string, ownm != nil && old(has(ownm, k0)) ==> has(unbox(result0, map[string]any), k0) && unbox(result0, map[string]any)[k0] == old(ownm[k0]))
 // generateMap: a document map of exactly the field's map type is taken as it is; otherwise every entry is converted
 // on its own and stored under its own key only after its check succeeded - lists through the slice filler, objects
 // through Unmarshal into a new value, nested maps recursively, bool / string entries only into bool / string
